@@ -213,6 +213,8 @@ class Check(PropertyCheck):
     id = 'C06'
     props_module = 'Props.C06'
     models = {'project': 'XProject.v'}
+    needs_gen = True
+    gen_modules = ['gen_c06_code']
     want_doclinks = False
     rule = ('projects = corpus + the re-export matrix {package, sibling} x {plain, renamed, star} x {consumer from D, from R, both, '
             'module alias, star import of D, star import of R} + every project of N flat modules with <= 1 import each (from / star / import-module, before or after '
@@ -222,6 +224,10 @@ class Check(PropertyCheck):
     trusted_base = [
         'Coq 8.16.1 kernel (vm_compute for the _refuted witnesses and Examples; no native_compute); no axioms',
         'extraction: ExtrOcamlBasic only; OCaml 4.13.1; coq/ocaml/driver.ml',
+        'translator harness/gen/gen_c06_code.py (bodies of ModuleVistor._getCurrentModuleExports / _handleReExport and Documentable.reparent / '
+        '_handle_reparenting_pre / _post -> Gen/ReexportCode.v, fail-closed) and the meaning Model/ReexportIR.v gives to its primitives '
+        '(self.builder.current, isinstance on the class tag, .all / .parent / .name / .contents.get, resolveName and fullName = the model\'s '
+        'resolve_name and full_name, dict updates as association-list updates, `del` of a missing key not modelled; report / msg dropped)',
         'harness/c06.py, harness/c06_lib.py (generators, static analyses: import graph, re-exports, Python binding of a dotted name), '
         'harness/impl/c06_project.py (real System built with SystemBuilder.addModuleString, system.unprocessed_modules permuted)',
         'modelled not verified (sampled by the correspondence check only): nested classes and imports inside class bodies, Class.find '
@@ -242,6 +248,12 @@ class Check(PropertyCheck):
                  'modules; proof by monotonicity of expandName along a run); (3) the final alias map of every module is a function of '
                  'its text (C06_alias_maps_syntactic); (4) the orders the tool can realise (depth-first preorders, Spec/'
                  'ProjectSchedules.v) are among the schedules quantified over (C06_schedules_reachable, C06_registry_tool_orders). '
+                 'TIE TO THE SOURCE: the current bodies of _getCurrentModuleExports and _handleReExport (and, for C07, Documentable.reparent '
+                 'with its two registry walks) are translated statement by statement into a deep-embedded language (Gen/ReexportCode.v) and '
+                 'interpreting that code is proved equal to the model\'s exports_of / handle_reexport / reparent for every state and all '
+                 'arguments (C06_code_exports_is_model, C06_code_handle_reexport_is_model, C07_code_reparent_is_model, '
+                 'C07_code_registry_walks_is_model), by symbolic execution, so equivalent rewrites of the Python still prove and a changed '
+                 'decision chain breaks an obligation. '
                  'REFUTED with vm_compute witnesses (known findings): duplicate name inside an import cycle, stale name of a re-exported '
                  'object imported from its defining module, bases of a moved class re-resolved in the re-exporter\'s scope, re-export / '
                  'star import inside an import cycle, `x = m.B` expanded at visit time. Tie: per-schedule diff of the model dump with the '
